@@ -260,6 +260,13 @@ func (r *Run) RunWriters() error {
 
 // OpenReader obtains a low-level reader (the current root snapshot) and keeps it.
 func (r *Run) OpenReader() (int, error) {
+	r.readersMu.Lock()
+	r.nextRdr++
+	id := r.nextRdr
+	r.readersMu.Unlock()
+	// logged BEFORE the snapshot is taken: batches that return between taking the
+	// snapshot and logging must not be demanded of this reader
+	r.Rec.Emit("ReaderOpenBegin", map[string]any{"r": id})
 	rd, err := r.Sc.Reader()
 	if err != nil {
 		return 0, err
@@ -271,8 +278,6 @@ func (r *Run) OpenReader() (int, error) {
 	}
 	h := &heldReader{r: rd, snap: scorch.VerifSnapshot(is)}
 	r.readersMu.Lock()
-	r.nextRdr++
-	id := r.nextRdr
 	r.readers[id] = h
 	r.readersMu.Unlock()
 	r.Rec.Emit("ReaderOpen", map[string]any{"r": id, "snap": snapJSON(h.snap)})
